@@ -85,6 +85,15 @@ def load_known(pid):
     return [k for k in data.get('findings', []) if k.get('property') == pid and k.get('status') == 'known']
 
 
+def load_ledger():
+    """Obligations discharged on the unchanged tree, with the hash of each function's source at that time."""
+    p = os.path.join(VERIF, 'ledger.json')
+    if not os.path.exists(p):
+        return {}
+    with open(p) as f:
+        return json.load(f)
+
+
 def matches_known(known, function, label):
     for k in known:
         if k.get('function') == function and (k.get('obligation') is None or k.get('obligation') in label):
@@ -206,6 +215,9 @@ def main(argv=None):
     ap.add_argument('--replay', default=None)
     ap.add_argument('--jobs', type=int, default=12)
     ap.add_argument('--only', default=None)
+    ap.add_argument('--record-ledger', action='store_true',
+                    help='record the obligations discharged on the current tree in ledger.json (done by hand on '
+                         'the unchanged tree and committed; never at check time)')
     args = ap.parse_args(argv)
     pid = args.property
     tier = args.tier if args.tier in ('quick', 'thorough') else 'quick'
@@ -278,6 +290,35 @@ def main(argv=None):
             undecided.append(j)
         if j['status'] in ('error', 'out_of_reach'):
             broken.append(j)
+    # ---- ledger: obligations discharged on the recorded (unchanged) tree ----
+    ledger_all = load_ledger()
+    if args.record_ledger:
+        ledger_all[pid] = {}
+        for j in results:
+            proved = sorted({o['label'] for o in j.get('all_obligations', []) if o['status'] == 'proved'} -
+                            {o['label'] for o in j.get('all_obligations', []) if o['status'] != 'proved'})
+            ledger_all[pid][j['function']] = {'source_hash': j.get('source_hash', ''), 'proved': proved}
+        with open(os.path.join(VERIF, 'ledger.json'), 'w') as fh:
+            json.dump(ledger_all, fh, indent=1, sort_keys=True)
+        print('ledger recorded for %s: %d functions' % (pid, len(ledger_all[pid])))
+        return 0
+    ledger = ledger_all.get(pid, {})
+    changed = sorted(j['function'] for j in results if j['function'] in ledger and j.get('source_hash') and
+                     ledger[j['function']]['source_hash'] != j['source_hash'])
+    if changed:
+        # the source of a function under contract differs from the recorded tree: an obligation that was discharged
+        # there and is not discharged now is reported as a violation (with a native search for a failing input);
+        # with unchanged sources an 'unknown' stays an UNDECIDED (solver budget), never a violation
+        for j in list(undecided):
+            led = ledger.get(j['function'])
+            if not led or j['function'] not in changed:
+                continue
+            lost = [u for u in j['unknown'] if u['label'] in led['proved']]
+            for u in lost:
+                violations.append((j, {'label': u['label'], 'path': u.get('path', ''), 'model': None,
+                                       'claim': 'discharged on the recorded tree (ledger.json), not discharged after '
+                                                'the change of %s: solver says %s' % (j['function'], u.get('detail')),
+                                       'verifier_status': 'unknown: %s' % u.get('detail')}))
     # ---- native cross-check / bounded stand-in on the same contracts ----
     n_native = plan.get('native_per_fn', {'quick': 60, 'thorough': 600})[tier]
     evals = nontriv = 0
@@ -358,7 +399,8 @@ def main(argv=None):
                     break
         with open(rp, 'w') as fh:
             json.dump({'property': pid, 'obligation': f['label'], 'function': j['function'], 'path': f['path'],
-                       'claim': f.get('claim'), 'verifier_output': {'status': 'sat', 'model': f.get('model')},
+                       'claim': f.get('claim'),
+                       'verifier_output': {'status': f.get('verifier_status', 'sat'), 'model': f.get('model')},
                        'native_replay': rep, 'replay_cmd': './check %s --replay %s' % (pid, rp)}, fh, indent=1,
                       default=str)
         print('VIOLATION property=%s replay=%s%s' % (pid, rp, '' if confirmed else ' no-failing-input-found'))
